@@ -1,4 +1,6 @@
 """C13 — query replies report the device's data verbatim."""
+import json
+
 from ..core import Case
 from .. import reqgen
 from . import linegen
@@ -58,6 +60,14 @@ def gen(tier, rng):
             inp = {"mode": "v5", "line": {"kind": "json", "request": req},
                    "dev": {"seed": rng.getrandbits(32), "state": st, "policy": {}}, "want_devstate": True}
             out.append(Case(OP, inp, stream=cmd, state=str(sorted(st.items()))[:80]))
+            if i % 3 == 0 and not any(k in st for k in ("after_signer_exit", "after_uihb_exit", "mode", "exit_drops_link")):
+                # a history: the same manager first served a request (this one or another) from a device
+                # holding other data; the reply must be about the device that is connected now
+                pre_cmd = cmd if rng.random() < 0.6 else rng.choice(cmds[:4])
+                inp2 = json.loads(json.dumps(inp))
+                inp2["prelude"] = {"request": reqgen.simple_request(rng, pre_cmd), "faults": {},
+                                   "reseed": rng.getrandbits(32)}
+                out.append(Case(OP, inp2, stream=cmd + "-after-other-device"))
     # all six paths for getPubKey
     for p in reqgen.PATHS:
         inp = {"mode": "v5", "line": {"kind": "json", "request": {"command": "getPubKey", "version": 5, "keyId": p}},
